@@ -18,18 +18,24 @@ import traceback
 import numpy as np
 
 
+_REQUESTED = {}
+
+
 def result_event(obs, fs, tag):
     """The Done event: counts plus the C05 booleans computed independently."""
     from .oracle import standard_result_facts
 
     ns = fs.ns
     counts = obs.counts(ns)        # (timers are read before the oracle spends time)
-    facts = standard_result_facts(fs, obs)
+    # the expectation the USER asked for (the option is case-insensitive), not what the library stored
+    facts = standard_result_facts(fs, obs, expectation=_REQUESTED.get("expectation"))
     obs.em.emit(tag, **facts, **counts)
 
 
 def main():
     cfg = json.load(open(sys.argv[1]))
+    if "shrinkage_expectation" in cfg.get("kwargs", {}):
+        _REQUESTED["expectation"] = str(cfg["kwargs"]["shrinkage_expectation"]).lower()
     import torch
 
     torch.set_num_threads(1)
